@@ -153,7 +153,7 @@ theorem aexit_lift' (D : Int) (ig : Bool) (self : Int) (r : Res) (s : TS)
     · subst hmd
       have := hmk hm
       simp [this]
-    · simp [List.contains_cons, hmd]
+    · simp [hmd]
   have hst := unset_lift D s hne
   have hmarker : (unset (lift D s)).1 = (unset s).1 := rfl
   have hunc : (unset (lift D s)).2.1 = (unset s).2.1 := by
